@@ -21,10 +21,10 @@ from typing import Any, Dict, List, Optional, Set, Tuple
 
 from ..cfg import cfg_of, ExcTypes
 from ..consteval import ConstEval
-from ..flow import Sym, fpaths, attr_effects, enclosing_handlers
+from ..flow import Sym, fpaths, attr_effects, enclosing_handlers, allfacts
 from ..model import FuncInfo, attr_chain, norm, walk_no_nested
 from ..report import Checker
-from .common import iteration_mutations, self_calls
+from .common import dict_iter, iteration_mutations, self_calls
 
 TABLE = 'self.subscribers'
 
@@ -78,14 +78,27 @@ def run(ch: Checker) -> None:
     # ---------------- C18.2
     bc = disp.methods['_broadcast']
     evp = bc.params[1]
-    loops = [l for l in walk_no_nested(bc.node) if isinstance(l, ast.For) and attr_chain(l.iter) == TABLE]
+    loops = [l for l in walk_no_nested(bc.node) if isinstance(l, ast.For) and dict_iter(l.target, l.iter, TABLE) is not None]
     if len(loops) != 1:
         ch.bad('C18.2', bc, 'fan-out loop', '_broadcast does not iterate self.subscribers exactly once (%d loops)' % len(loops))
     else:
         lp = loops[0]
         sends = [c for c in walk_no_nested(lp) if isinstance(c, ast.Call) and isinstance(c.func, ast.Attribute) and c.func.attr == 'send']
         ok = len(sends) == 1 and len(sends[0].args) == 1 and norm(sends[0].args[0]) == evp
-        recv_ok = ok and norm(sends[0].func.value) in ('%s[%s]' % (TABLE, norm(lp.target)),)
+        di = dict_iter(lp.target, lp.iter, TABLE) or {}
+        recv_ok = False
+        if ok:
+            recv = sends[0].func.value
+            if isinstance(recv, ast.Name):
+                stores = [n_ for n_ in walk_no_nested(lp) if isinstance(n_, ast.Name) and n_.id == recv.id and isinstance(n_.ctx, ast.Store)]
+                if recv.id == di.get('value') and len(stores) == 1:          # `for k, conn in T.items(): conn.send(ev)` (the only store is the loop target)
+                    recv_ok = True
+                else:                                                        # `conn = T[k]; conn.send(ev)`
+                    asg = [n_ for n_ in walk_no_nested(lp) if isinstance(n_, ast.Assign) and len(n_.targets) == 1 and norm(n_.targets[0]) == recv.id]
+                    if len(asg) == 1 and len(stores) == 1:
+                        recv = asg[0].value
+            if not recv_ok and di.get('key') is not None:
+                recv_ok = norm(recv) == '%s[%s]' % (TABLE, di['key'])
         ch.check(ok and recv_ok, 'C18.2', bc, 'one send per subscriber', 'each subscriber gets send(%s) once per event' % evp,
                  'the fan-out loop does not send the event itself exactly once to each subscriber: %s' % [norm(s) for s in sends])
         if sends:
@@ -169,7 +182,7 @@ def run(ch: Checker) -> None:
         sym = Sym(p)
         present: Set[str] = set()
         kind = None
-        for a, pol in p.facts():
+        for a, pol in allfacts(p).items():
             if 'eventNames.SUBSCRIBE' in a and a.endswith('eventNames.SUBSCRIBE') and pol:
                 kind = 'sub'
             if a.endswith('eventNames.UNSUBSCRIBE') and pol:
@@ -245,8 +258,10 @@ def run(ch: Checker) -> None:
             if nd.kind == 'for' and lab == 'iter':
                 it = nd.ast.iter  # type: ignore[union-attr]
                 tv = norm(nd.ast.target)  # type: ignore[union-attr]
-                if attr_chain(it) == TABLE:
-                    present.add(tv)
+                di2 = dict_iter(nd.ast.target, it, TABLE)  # type: ignore[union-attr]
+                if di2 is not None:
+                    if di2['key'] is not None:
+                        present.add(di2['key'])
                 elif isinstance(it, ast.Name) and _filled_from_table(bc, it.id):
                     present.add(tv)
             if nd.kind == 'stmt' and nd.ast is not None and lab != 'exc':
@@ -271,18 +286,26 @@ def run(ch: Checker) -> None:
     # ---------------- C18.6
     sub = ce.try_eval(m, ast.parse('eventNames.SUBSCRIBE', mode='eval').body)
     unsub = ce.try_eval(m, ast.parse('eventNames.UNSUBSCRIBE', mode='eval').body)
-    top = [s for s in he.node.body if isinstance(s, ast.If)]  # type: ignore[attr-defined]
-    ok6 = False
-    if top:
-        i0 = top[0]
-        t0 = norm(i0.test)
-        e1 = i0.orelse[0] if len(i0.orelse) == 1 and isinstance(i0.orelse[0], ast.If) else None
-        if e1 is not None:
-            t1 = norm(e1.test)
-            els = e1.orelse
-            bcast = any(isinstance(c, ast.Call) and attr_chain(c.func) == 'self._broadcast' and c.args and norm(c.args[0]) == he.params[1] for s in els for c in walk_no_nested(s))
-            ok6 = t0.endswith('== eventNames.SUBSCRIBE') and t1.endswith('== eventNames.UNSUBSCRIBE') and bcast and sub != unsub and sub is not None
-    ch.check(ok6, 'C18.6', he, 'three kinds of event', 'SUBSCRIBE / UNSUBSCRIBE / broadcast(ev)', 'handle_event no longer dispatches SUBSCRIBE, UNSUBSCRIBE and everything-else-is-broadcast')
+    evn = he.params[1]
+    n_kind = {'sub': 0, 'unsub': 0, 'other': 0}
+    bad6 = None
+    for p in fpaths(gh):
+        if p.exit_kind != 'return':
+            continue
+        fd = allfacts(p)
+        is_sub = any(v is True and k.replace(' ', '') in ("%s['event_name']==eventNames.SUBSCRIBE" % evn, "eventNames.SUBSCRIBE==%s['event_name']" % evn) for k, v in fd.items())
+        is_unsub = any(v is True and k.replace(' ', '') in ("%s['event_name']==eventNames.UNSUBSCRIBE" % evn, "eventNames.UNSUBSCRIBE==%s['event_name']" % evn) for k, v in fd.items())
+        kind6 = 'sub' if is_sub else 'unsub' if is_unsub else 'other'
+        n_kind[kind6] += 1
+        bcasts = [c for i, st in p.stmts() for c in walk_no_nested(st) if isinstance(c, ast.Call) and attr_chain(c.func) == 'self._broadcast']
+        if kind6 == 'other':
+            if len(bcasts) != 1 or not bcasts[0].args or norm(Sym(p).value(bcasts[0].args[0], len(p.steps))) != evn:
+                bad6 = ('an event that is neither SUBSCRIBE nor UNSUBSCRIBE is not broadcast exactly once as it is (%s)' % [norm(c) for c in bcasts], p.describe(16))
+        elif bcasts:
+            bad6 = ('a %s control event is also broadcast to the subscribers' % kind6.upper(), p.describe(16))
+    ok6 = bad6 is None and all(n_kind.values()) and sub != unsub and sub is not None and unsub is not None
+    ch.check(ok6, 'C18.6', he, 'three kinds of event', 'SUBSCRIBE / UNSUBSCRIBE / broadcast(ev) (paths per kind: %s)' % n_kind,
+             bad6[0] if bad6 else 'handle_event no longer dispatches SUBSCRIBE, UNSUBSCRIBE and everything-else-is-broadcast (paths per kind: %s)' % n_kind, witness=bad6[1] if bad6 else None)
 
 
 def _filled_from_table(fn: FuncInfo, lname: str) -> bool:
@@ -292,9 +315,10 @@ def _filled_from_table(fn: FuncInfo, lname: str) -> bool:
         if isinstance(n_, ast.Call) and isinstance(n_.func, ast.Attribute) and n_.func.attr in ('append', 'extend', 'insert') and norm(n_.func.value) == lname:
             total += 1
     for lp in walk_no_nested(fn.node):
-        if isinstance(lp, ast.For) and attr_chain(lp.iter) == TABLE:
+        di = dict_iter(lp.target, lp.iter, TABLE) if isinstance(lp, ast.For) else None
+        if di is not None and di['key'] is not None:
             for n_ in walk_no_nested(lp):
                 if isinstance(n_, ast.Call) and isinstance(n_.func, ast.Attribute) and n_.func.attr == 'append' and norm(n_.func.value) == lname \
-                        and n_.args and norm(n_.args[0]) == norm(lp.target):
+                        and n_.args and norm(n_.args[0]) == di['key']:
                     good += 1
     return total > 0 and good == total
